@@ -434,6 +434,13 @@ MAPPINGS = ['Conductivity', 'LgConductivity', 'LnConductivity',
             'Resistivity', 'LgResistivity', 'LnResistivity']
 
 
+def _pick(rng, seq, variant, salt=0):
+    """Random choice, or the (variant+salt)-th option when a variant is forced."""
+    if variant is None:
+        return rng.choice(seq)
+    return seq[(variant + salt) % len(seq)]
+
+
 def e_grid(rng, n=None):
     import emg3d
     shp = [n or rng.randint(2, 4) for _ in range(3)]
@@ -442,11 +449,11 @@ def e_grid(rng, n=None):
     return emg3d.TensorMesh(hs, origin)
 
 
-def e_model(rng, grid=None, recipe=None):
+def e_model(rng, grid=None, recipe=None, variant=None):
     import emg3d
     grid = grid or e_grid(rng)
-    r = recipe or dict(mapping=rng.choice(MAPPINGS), case=rng.randint(0, 3),
-                       mu=rng.random() < 0.5, eps=rng.random() < 0.5,
+    r = recipe or dict(mapping=_pick(rng, MAPPINGS, variant), case=_pick(rng, [0, 1, 2, 3], variant),
+                       mu=_pick(rng, [True, False], variant), eps=_pick(rng, [False, True, True], variant),
                        scalar=rng.random() < 0.2, seed=rng.randint(0, 2 ** 31))
     npr = np.random.RandomState(r['seed'])
 
@@ -466,12 +473,12 @@ def e_model(rng, grid=None, recipe=None):
     return emg3d.Model(grid, **kw), r
 
 
-def e_field(rng, grid=None):
+def e_field(rng, grid=None, variant=None):
     import emg3d
     grid = grid or e_grid(rng)
-    kind = rng.choice(['freq', 'laplace', 'none'])
+    kind = _pick(rng, ['freq', 'laplace', 'none'], variant)
     freq = {'freq': rng.randint(1, 80) / 8, 'laplace': -rng.randint(1, 80) / 8, 'none': None}[kind]
-    electric = rng.random() < 0.7
+    electric = _pick(rng, [True, True, False, True, False], variant)
     f = emg3d.Field(grid, frequency=freq, electric=electric)
     npr = np.random.RandomState(rng.randint(0, 2 ** 31))
     if np.iscomplexobj(f.field):
@@ -486,18 +493,18 @@ def e_strength(rng):
                        3, np.float64(2.5)])
 
 
-def e_source(rng, kind=None):
+def e_source(rng, kind=None, variant=None):
     import emg3d
     kind = kind or rng.choice(['TxElectricPoint', 'TxMagneticPoint', 'TxElectricDipole',
                                'TxMagneticDipole', 'TxElectricWire'])
     c3 = lambda: [rng.randint(-80, 80) / 4 for _ in range(3)]   # noqa: E731
     ang = lambda: [rng.randint(-180, 180) / 2, rng.randint(-90, 90) / 2]   # noqa: E731
-    st = e_strength(rng)
+    st = e_strength(rng) if variant is None else _pick(rng, [complex(2, -1.5), 1.0, 3, np.float64(2.5)], variant)
     fmt = None
     if kind in ('TxElectricPoint', 'TxMagneticPoint'):
         o = getattr(emg3d, kind)(tuple(c3() + ang()), strength=st)
     elif kind in ('TxElectricDipole', 'TxMagneticDipole'):
-        fmt = rng.choice(['point', 'flat', 'dipole'])
+        fmt = _pick(rng, ['point', 'flat', 'dipole'], variant)
         if fmt == 'point':
             o = getattr(emg3d, kind)(tuple(c3() + ang()), strength=st, length=rng.randint(1, 40) / 4)
         elif fmt == 'flat':
@@ -516,20 +523,22 @@ def e_source(rng, kind=None):
     return o, dict(kind=kind, fmt=fmt, strength=repr(st))
 
 
-def e_receiver(rng, kind=None):
+def e_receiver(rng, kind=None, variant=None):
     import emg3d
     kind = kind or rng.choice(['RxElectricPoint', 'RxMagneticPoint'])
     c = tuple([rng.randint(-80, 80) / 4 for _ in range(3)]
               + [rng.randint(-180, 180) / 2, rng.randint(-90, 90) / 2])
-    rel = rng.random() < 0.4
+    rel = _pick(rng, [False, True], variant)
     o = getattr(emg3d, kind)(c, relative=rel)
     return o, dict(kind=kind, relative=rel)
 
 
-def e_survey(rng, small=False):
+def e_survey(rng, small=False, variant=None):
     import emg3d
     ns, nr, nf = (rng.randint(1, 2), rng.randint(1, 2), rng.randint(1, 2)) if small else \
         (rng.randint(1, 3), rng.randint(0, 3), rng.randint(1, 3))
+    if variant is not None:
+        ns, nr, nf = 2, (0 if variant % 7 == 6 else 2), 3
     srcs = [e_source(rng)[0] for _ in range(ns)]
     recs = [e_receiver(rng)[0] for _ in range(nr)]
     if small:
@@ -539,10 +548,11 @@ def e_survey(rng, small=False):
     nf = len(freqs)
     shape = (ns, nr, nf)
     npr = np.random.RandomState(rng.randint(0, 2 ** 31))
-    r = dict(shape=shape, src_as_dict=rng.random() < 0.3, data=rng.choice(['none', 'observed', 'extra']),
-             nf=rng.choice(['none', 'scalar', 'array', 'bcast']),
-             re=rng.choice(['none', 'scalar', 'array', 'bcast']),
-             std=rng.random() < 0.25, meta=rng.random() < 0.6)
+    r = dict(shape=shape, src_as_dict=_pick(rng, [False, True, False], variant),
+             data=_pick(rng, ['observed', 'extra', 'none'], variant),
+             nf=_pick(rng, ['none', 'scalar', 'array', 'bcast'], variant),
+             re=_pick(rng, ['none', 'scalar', 'array', 'bcast'], variant, 1),
+             std=_pick(rng, [False, False, True, False], variant, 1), meta=_pick(rng, [True, False, True], variant))
     data = None
     if r['data'] != 'none' and nr:
         obs = npr.randint(-99, 99, shape) / 8 + 1j * npr.randint(-99, 99, shape) / 16
@@ -579,7 +589,7 @@ def e_survey(rng, small=False):
     return s, r
 
 
-def e_sim_survey(rng):
+def e_sim_survey(rng, force_noise=False):
     """Small survey with everything inside [2, 6]^3 (the 4^3 simulation grid spans >= [0, 8]^3)."""
     import emg3d
     c3 = lambda: [rng.randint(8, 24) / 4 for _ in range(3)]   # noqa: E731
@@ -605,6 +615,8 @@ def e_sim_survey(rng):
         kw['noise_floor'] = 2.0 ** -30
     elif r['nf'] == 'array' and np.prod(shape) > 1:
         kw['noise_floor'] = npr.randint(1, 64, shape) / 2.0 ** 30
+    if force_noise:
+        r['re'], r['observed'] = 'scalar', True
     if r['re'] == 'scalar':
         kw['relative_error'] = 0.0625
     elif r['re'] == 'array' and np.prod(shape) > 1:
@@ -618,13 +630,14 @@ def e_sim_survey(rng):
     return emg3d.Survey(srcs, recs, freqs, data=data, **kw), r
 
 
-def e_simulation(rng, computed):
+def e_simulation(rng, computed, variant=None):
     import emg3d
     hs = [np.array([rng.randint(8, 40) / 4 for _ in range(4)]) for _ in range(3)]
     grid = emg3d.TensorMesh(hs, (0, 0, 0))
     model, mr = e_model(rng, grid)
-    survey, sr = e_sim_survey(rng)
-    what = rng.choice(['computed', 'results', 'all', 'plain'])
+    want_misfit = computed and (rng.random() < 0.5 if variant is None else variant % 2 == 0)
+    survey, sr = e_sim_survey(rng, force_noise=want_misfit)
+    what = _pick(rng, ['computed', 'results', 'all', 'plain'], variant)
     sim = emg3d.Simulation(survey, model, gridding='same', max_workers=1, verb=0,
                            name=rng.choice([None, 'sim-1']), info=rng.choice([None, 'info']),
                            solver_opts={'maxit': 1, 'sslsolver': False, 'semicoarsening': False,
@@ -634,13 +647,13 @@ def e_simulation(rng, computed):
     if computed:
         with warnings.catch_warnings(), contextlib.redirect_stdout(_io.StringIO()):
             warnings.simplefilter('ignore')
-            sim.compute(observed=rng.random() < 0.5)
-            if rng.random() < 0.5:
+            sim.compute(observed=(rng.random() < 0.5) and not want_misfit)
+            if want_misfit:
                 try:
                     _ = sim.misfit
                 except Exception:
                     pass
-    return sim, dict(model=mr, survey=sr, what=what, computed=computed)
+    return sim, dict(model=mr, survey=sr, what=what, computed=computed, misfit=want_misfit)
 
 
 # ---- comparison of two objects through their PUBLIC attributes (deliberately not
@@ -788,25 +801,25 @@ E2E_KINDS = ['TensorMesh', 'Model', 'Field', 'TxElectricPoint', 'TxMagneticPoint
              'Simulation', 'SimulationComputed', 'Nested']
 
 
-def e_make(rng, kind):
+def e_make(rng, kind, variant=None):
     """(object or dict of objects, recipe)"""
     if kind == 'TensorMesh':
         g = e_grid(rng)
         return g, dict(shape=list(g.shape_cells))
     if kind == 'Model':
-        return e_model(rng)
+        return e_model(rng, variant=variant)
     if kind == 'Field':
-        return e_field(rng)
+        return e_field(rng, variant=variant)
     if kind.startswith('Tx'):
-        return e_source(rng, kind)
+        return e_source(rng, kind, variant)
     if kind.startswith('Rx'):
-        return e_receiver(rng, kind)
+        return e_receiver(rng, kind, variant)
     if kind == 'Survey':
-        return e_survey(rng)
+        return e_survey(rng, variant=variant)
     if kind == 'Simulation':
-        return e_simulation(rng, False)
+        return e_simulation(rng, False, variant)
     if kind == 'SimulationComputed':
-        return e_simulation(rng, True)
+        return e_simulation(rng, True, variant)
     if kind == 'Nested':
         d = {'grid': e_grid(rng), 'sub': {'model': e_model(rng)[0], 'n': 3, 'name': 'abc', 'flag': True,
                                           'none': None, 'deep': {'src': e_source(rng)[0],
@@ -817,11 +830,11 @@ def e_make(rng, kind):
     raise ValueError(kind)
 
 
-def e2e_case(rng, kind, tmp, tag, convert_pairs=None):
+def e2e_case(rng, kind, tmp, tag, convert_pairs=None, variant=None):
     """Round-trip one object through the three formats and the six conversions.
     Returns (list of failures, number of round trips)."""
     from emg3d import io
-    obj, recipe = e_make(rng, kind)
+    obj, recipe = e_make(rng, kind, variant)
     what = recipe.get('what') if isinstance(recipe, dict) else None
     fails, n = [], 0
 
@@ -1151,19 +1164,32 @@ def compare_cases(cases, res, prefix, per, dis, hist):
     return n_eval
 
 
+# how many forced variants cover the parameter grid of each class
+VARIANTS = {'TensorMesh': 1, 'Model': 12, 'Field': 6, 'TxElectricPoint': 2, 'TxMagneticPoint': 2,
+            'TxElectricDipole': 6, 'TxMagneticDipole': 6, 'TxElectricWire': 2, 'RxElectricPoint': 2,
+            'RxMagneticPoint': 2, 'Survey': 8, 'Simulation': 4, 'SimulationComputed': 4, 'Nested': 1}
+
+
 def e2e_stream(rng, kinds_n, tmp, tag, convert_all=True):
+    """kinds_n: list of (kind, n_random); every kind also runs its forced variants first
+    (all mappings / anisotropy cases / field kinds / coordinate formats / noise settings / what levels)."""
     import random as _random
     fails, trips, per_kind = [], 0, {}
     for kind, n in kinds_n:
-        for i in range(n):
+        plan = [v for v in range(VARIANTS[kind])] + [None] * n
+        for i, variant in enumerate(plan):
             seed = rng.randint(0, 2 ** 31 - 1)
             sub = _random.Random(seed)
-            pairs = None if convert_all else [(sub.choice(FMTS), sub.choice(FMTS))]
-            f, t = e2e_case(sub, kind, tmp, f"{tag}{kind}{i}", pairs)
+            pairs = None
+            if not convert_all:
+                a = FMTS[i % 3]
+                pairs = [(a, FMTS[(i + 1) % 3]), (FMTS[(i + 2) % 3], a)]
+            f, t = e2e_case(sub, kind, tmp, f"{tag}{kind}{i}", pairs, variant)
             trips += t
             per_kind[kind] = per_kind.get(kind, 0) + t
             for x in f:
                 x['case_seed'] = seed
+                x['variant'] = variant
                 ks = known_sig(kind, x.get('recipe'), x['how'], x['diff'])
                 if ks:
                     x['signature'] = ks
@@ -1184,8 +1210,8 @@ def correspondence(ctx):
         res = V.coq_eval_many(coq_files(cases, 'c17_k', per), timeout=1200)
         n_eval = compare_cases(cases, res, 'c17_k', per, dis, hist)
         # oracle-free sanity stream: objects of every registered class through real files
-        kinds_n = [(k, 2 if ctx.thorough else 1) for k in E2E_KINDS] + [('Survey', 3), ('Model', 3)]
-        fails, trips, per_kind = e2e_stream(rng, kinds_n, tmp, 'e', convert_all=True)
+        kinds_n = [(k, 2 if ctx.thorough else 0) for k in E2E_KINDS]
+        fails, trips, per_kind = e2e_stream(rng, kinds_n, tmp, 'e', convert_all=ctx.thorough)
     seen = set()
     for c in cases:
         f = c['feat']
@@ -1200,7 +1226,8 @@ def correspondence(ctx):
     hist['e2e_round_trips_per_class'] = per_kind
     for x in fails:
         dis.append({'what': 'end-to-end round trip of a class instance fails (implementation-side, no model)',
-                    'signature': x['signature'], 'case': {k: x[k] for k in ('kind', 'how', 'recipe', 'case_seed')},
+                    'signature': x['signature'],
+                    'case': {k: x[k] for k in ('kind', 'how', 'recipe', 'case_seed', 'variant')},
                     'impl': x['diff'][:600], 'model': 'n/a (required: equal object)'})
     # collapse known-defect duplicates
     uniq, out = set(), []
@@ -1318,7 +1345,7 @@ def search(ctx, broken):
             continue
         seen.add(x['signature'])
         hits.append({'signature': x['signature'], 'kind': x['kind'], 'how': x['how'], 'recipe': x['recipe'],
-                     'case_seed': x['case_seed'], 'observed': x['diff'][:800],
+                     'case_seed': x['case_seed'], 'variant': x['variant'], 'observed': x['diff'][:800],
                      'required': 'load returns an equal object (class __eq__, dtype/shape/values, NaN-aware)'})
     ctx.notes.append(f"searcher: {n_dict} guard-respecting dicts x 3 formats (+1 conversion each), "
                      f"{trips} class round trips {per_kind}")
@@ -1333,5 +1360,5 @@ def replay(ctx, payload):
     with tempfile.TemporaryDirectory(prefix='c17r_') as tmp:
         if fi.get('kind') == 'dict':
             return dict_rt_case(_random.Random(fi['case_seed']), tmp, 'r', fi.get('maxdepth', 4)) is None
-        fails, _ = e2e_case(_random.Random(fi['case_seed']), fi['kind'], tmp, 'r')
+        fails, _ = e2e_case(_random.Random(fi['case_seed']), fi['kind'], tmp, 'r', None, fi.get('variant'))
         return not fails
